@@ -261,7 +261,6 @@ macro_rules! cell {
 /// covering design of DESIGN.md section 3 (28 families x 5 minimum alignments)
 pub fn cells() -> Vec<Cell> {
     vec![
-        // shape Z, GA on, MCS 512: UP x (DE,SH)
         cell!(Z, 1, true, true, true, true, 512),
         cell!(Z, 2, false, true, true, true, 512),
         cell!(Z, 4, true, true, true, false, 512),
@@ -270,29 +269,26 @@ pub fn cells() -> Vec<Cell> {
         cell!(Z, 1, false, true, false, true, 512),
         cell!(Z, 2, true, true, false, false, 512),
         cell!(Z, 4, false, true, false, false, 512),
-        // GA off
         cell!(Z, 8, true, false, true, true, 512),
         cell!(Z, 16, false, false, true, true, 512),
-        cell!(Z, 1, true, false, false, false, 512),
-        cell!(Z, 2, false, false, false, false, 512),
-        // MCS 0 / 4096
-        cell!(Z, 4, true, true, true, true, 0),
-        cell!(Z, 8, false, true, true, true, 0),
-        cell!(Z, 16, true, true, true, true, 4096),
-        cell!(Z, 1, false, true, true, true, 4096),
-        // stateful / over-aligned shapes
-        cell!(P, 2, true, true, true, true, 512),
-        cell!(P, 4, false, true, true, true, 512),
-        cell!(P, 8, true, false, true, true, 512),
-        cell!(P, 16, false, false, true, true, 512),
-        cell!(O64, 1, true, true, true, true, 512),
+        cell!(Z, 32, true, false, false, false, 512),
+        cell!(Z, 32, false, false, false, false, 512),
+        cell!(Z, 32, true, true, true, true, 0),
+        cell!(Z, 32, false, true, true, true, 0),
+        cell!(Z, 32, true, true, true, true, 4096),
+        cell!(Z, 32, false, true, true, true, 4096),
+        cell!(P, 4, true, true, true, true, 512),
+        cell!(P, 16, false, true, true, true, 512),
+        cell!(P, 32, true, false, true, true, 512),
+        cell!(P, 32, false, false, true, true, 512),
+        cell!(O64, 8, true, true, true, true, 512),
         cell!(O64, 2, false, true, true, true, 512),
-        cell!(O64, 4, true, false, true, true, 512),
-        cell!(O64, 8, false, false, true, true, 512),
-        cell!(P24, 16, true, true, true, true, 512),
-        cell!(P24, 1, false, true, true, true, 512),
-        cell!(O32, 2, true, true, true, true, 512),
-        cell!(O32, 4, false, true, true, true, 512),
+        cell!(O64, 32, true, false, true, true, 512),
+        cell!(O64, 32, false, false, true, true, 512),
+        cell!(P24, 32, true, true, true, true, 512),
+        cell!(P24, 32, false, true, true, true, 512),
+        cell!(O32, 32, true, true, true, true, 512),
+        cell!(O32, 32, false, true, true, true, 512),
     ]
 }
 
@@ -493,7 +489,7 @@ impl ArenaEngine {
         let cell = &cells[h.cell];
         let mut h = h;
         if h.ma == 0 {
-            h.ma = cell.home;
+            h.ma = if cell.home <= 16 { cell.home } else { 1usize << (h.congruence % 5) };
         }
         talloc::with_ctx(0, |c| c.reset(h.policy, h.congruence, h.plan));
         talloc::with_ctx(1, |c| c.reset(GrantPolicy::Exact, 0x1234_5678, FaultPlan::default()));
